@@ -496,7 +496,7 @@ func normCheck(f *Fam, p Params, report func(Failure), tried *int) {
 		if f.Name == "FCategorical" {
 			hi = len(p.Ps) - 1
 		}
-		if f.Name == "FGeometric" && p.Ps[0] < 0.01 || f.Name == "FNegBinomial" && p.Ps[1] > 0.99 {
+		if f.Name == "FGeometric" && p.Ps[0] < 0.01 || f.Name == "FNegBinomial" && p.Ps[1] > 0.99 && p.Ps[1] < 1 {
 			return
 		}
 		for k := 0; k <= hi; k++ {
